@@ -8,6 +8,7 @@ import (
 	"os/exec"
 	"path/filepath"
 	"regexp"
+	"runtime"
 	"strings"
 	"sync"
 	"time"
@@ -80,7 +81,8 @@ func (fc *FnCtx) symbolsOf(t string) []string {
 // sliceAsserts: cone of influence of the goal (assertions that can constrain a symbol the goal depends on).
 // Dropping the others only weakens the hypotheses: an unsat answer on the slice is an unsat answer on the whole.
 // defTargets: the constants an assertion defines, for the shapes the generator emits:
-//   (= X T)   (=> G (= X T))   with X a declared constant (both sides when T is a constant too).
+//
+//	(= X T)   (=> G (= X T))   with X a declared constant (both sides when T is a constant too).
 func (fc *FnCtx) defTargets(a string) []string {
 	body := a
 	if strings.HasPrefix(body, "(=> ") {
@@ -161,7 +163,9 @@ func (fc *FnCtx) sliceAsserts(o *Obligation) []int {
 		}
 	}
 	fc.symIndexed = len(fc.q.asserts)
-	const strong, weak = 2, 1
+	// relevance levels: the goal's symbols start at `top`; a definition keeps the level of the symbol it defines; a
+	// constraint about a symbol of level k > 1 is kept and its other symbols get level k-1 (level 1: definitions only)
+	const top = 4
 	rel := map[string]int{}
 	type item struct {
 		s   string
@@ -175,7 +179,7 @@ func (fc *FnCtx) sliceAsserts(o *Obligation) []int {
 		}
 	}
 	for _, s := range fc.symbolsOf(o.Goal) {
-		add(s, strong)
+		add(s, top)
 	}
 	used := map[int]int{}
 	for len(work) > 0 {
@@ -212,17 +216,17 @@ func (fc *FnCtx) sliceAsserts(o *Obligation) []int {
 				for _, t := range fc.assertSyms[i] {
 					add(t, it.lvl)
 				}
-			case len(defs) == 0 && it.lvl == strong && !isCtlSym(it.s):
-				// a constraint about a strongly relevant value
-				if used[i] > 0 {
+			case len(defs) == 0 && it.lvl > 1 && !isCtlSym(it.s):
+				// a constraint about a relevant value
+				if used[i] >= it.lvl {
 					continue
 				}
-				used[i] = weak
+				used[i] = it.lvl
 				for _, t := range fc.assertSyms[i] {
 					if isCtlSym(t) {
-						add(t, strong)
+						add(t, top)
 					} else {
-						add(t, weak)
+						add(t, it.lvl-1)
 					}
 				}
 			}
@@ -232,6 +236,17 @@ func (fc *FnCtx) sliceAsserts(o *Obligation) []int {
 	for i := 0; i < o.NAsserts; i++ {
 		a := fc.q.asserts[i]
 		keep := used[i] > 0
+		if !keep {
+			// facts about the control skeleton only (reachability, allocation counters) are always kept
+			onlyCtl := len(fc.assertSyms[i]) > 0
+			for _, t := range fc.assertSyms[i] {
+				if !isCtlSym(t) {
+					onlyCtl = false
+					break
+				}
+			}
+			keep = onlyCtl
+		}
 		if !keep && strings.HasPrefix(a, "(forall ((ar Ref))") {
 			// array typing axiom: kept whenever its array version is relevant at all
 			for _, t := range fc.assertSyms[i] {
@@ -303,13 +318,29 @@ func (fc *FnCtx) incrementalText(timeoutMs int, lo, hi int) string {
 	return b.String()
 }
 
-var solvers = []struct{ name, bin string; args []string }{
+var solvers = []struct {
+	name, bin string
+	args      []string
+}{
 	{"z3-4.8.12", "/usr/bin/z3", []string{"-smt2"}},
 	{"z3-5.1.0", "z3-new", []string{"-smt2"}},
 	{"cvc5-1.0", "cvc5", []string{"--lang=smt2", "--produce-models"}},
 }
 
+// procSem bounds the number of solver processes that run at the same time (one per core): a query's timeout then measures
+// solver time, not time spent waiting for a core.
+var procSem = make(chan struct{}, runtime.NumCPU())
+
 func runSolver(ctx context.Context, bin string, args []string, file string, timeout time.Duration) (string, error) {
+	select {
+	case procSem <- struct{}{}:
+	case <-ctx.Done():
+		return "", ctx.Err()
+	}
+	defer func() { <-procSem }()
+	if ctx.Err() != nil {
+		return "", ctx.Err()
+	}
 	cctx, cancel := context.WithTimeout(ctx, timeout)
 	defer cancel()
 	cmd := exec.CommandContext(cctx, bin, append(args, file)...)
@@ -405,17 +436,23 @@ func solveFunction(fc *FnCtx, cfg SolverCfg) {
 			defer wg.Done()
 			defer func() { <-sem }()
 			portfolio(fc, o, dir, cfg, usesLambda)
-			if o.Verdict == "undecided" && cfg.Expect != nil && cfg.Expect(o.Name()) {
+		}(o)
+	}
+	wg.Wait()
+	// phase 3: obligations the lock expects to be discharged and that timed out are retried one at a time (no
+	// competition for cores among them) with a much longer timeout before they are reported undecided
+	if cfg.Expect != nil {
+		for _, o := range pending {
+			if o.Verdict == "undecided" && cfg.Expect(o.Name()) {
 				long := cfg
-				long.QueryTimeout = 6 * cfg.QueryTimeout
+				long.QueryTimeout = 12 * cfg.QueryTimeout
 				portfolio(fc, o, dir, long, usesLambda)
 				if o.Verdict == "discharged" {
 					o.Solver += "(retry)"
 				}
 			}
-		}(o)
+		}
 	}
-	wg.Wait()
 }
 
 func firstLine(s string) string {
